@@ -92,6 +92,9 @@ def escaped_violation(hist, prop_default=None):
             prop = "C11"
         elif fn.endswith("runner_util.py"):
             prop = "C10"
+        elif fn.endswith("model.py") and (set(names) & {"build_scenarios", "make_scenario_for", "make_scenario_name",
+                                                        "make_row_tags", "make_step_for_row", "render_template"}):
+            prop = "C06"        # outline expansion
         elif fn.endswith("runner.py") or fn.endswith("model.py") or fn.endswith("fixture.py"):
             prop = "C12"
         elif fn.endswith("configuration.py") and "build_name_re" in names:
@@ -120,7 +123,7 @@ def nothing_can_fail(world):
     for feat, rule, ol, sc in W.walk_scenarios(world):
         wip_scen[sc["id"]] = "wip" in W.effective_tags(feat, rule, ol, sc)
         for _sid, st in W.all_steps_of(feat, rule, sc):
-            if "BAD" in st["text"]:
+            if "BAD" in st["text"] or "WORSE" in st["text"]:
                 return False
             ok = False
             for d, r in rx:
@@ -177,6 +180,14 @@ def check_C01(world, hist, pred):
 
 def check_C02(world, hist, pred):
     out = trace_violations(pred, "C02", hist)
+    esc = hist.get("escaped")
+    if esc and esc["type"] not in ("WorldTimeout", "SimKeyboardInterrupt", "KeyboardInterrupt") and \
+            any(str(fn).endswith("model.py") and name == "run" for fn, name, _ln in esc["frames"]) and \
+            any(name == "find_match" or name == "match" or name == "check_match" for _fn, name, _ln in esc["frames"]):
+        # whatever happens while a step is matched and run ends as a step STATUS; an exception that
+        # leaves Step.run() (here: out of the matching / conversion code) was not mapped to one
+        out.append(V("C02", "status-map", "exception-escaped-step-run:%s" % esc["type"],
+                     msg=esc["msg"], frames=esc["frames"][-4:]))
     if pred.dead or hist.get("escaped") or hist.get("config_error"):
         return out
     idx = census_index(hist)
